@@ -235,6 +235,15 @@ class ScalarKernel(Kernel):
         vs = self._vars()
         pre = self.pre(vs) if self.pre else []
         ex = Executor(P, feas_timeout_ms=self.feas_ms)
+        hint = getattr(self, "clz_hint", None)
+        if hint:
+            # sound only because `pre` pins the leading-zero count of that input (checked here)
+            for nm, kk in hint.items():
+                bits = INT_TYPES[dict(self.argspec)[nm]][0]
+                need = [z3.UGE(vs[nm], z3.BitVecVal(1 << (bits - 1 - kk), bits)), z3.ULE(vs[nm], z3.BitVecVal((1 << (bits - kk)) - 1, bits))]
+                if not all(any(n.eq(p_) for p_ in pre) for n in need):
+                    raise Unsupported("clz hint without the matching range precondition")
+                ex.clz_known[vs[nm].get_id()] = (vs[nm], kk)
         fn = P.lookup(self.fn)
         if fn is None:
             raise Unsupported("no MIR for " + self.fn)
@@ -377,11 +386,16 @@ for _f, _lo, _hi in (("f64", -342, 308), ("f32", -65, 38)):
 
 def get(kid):
     """Kernel lookup. `base@var=VAL` specialises an argument to a constant (one table row);
-    `base@var<VAL` / `base@var>VAL` restricts it to a (signed) range."""
+    `base@var<VAL` / `base@var>VAL` restricts it to a (signed) range; the lemire_exact family
+    takes `q=..,k=..[,bits=..]`."""
     import copy
     if "@" not in kid:
         return KERNELS[kid]
     base, spec = kid.split("@", 1)
+    m = re.fullmatch(r"lemire_exact_(f32|f64)", base)
+    if m:
+        kv = dict(x.split("=") for x in spec.split(","))
+        return LemireExact(m.group(1), int(kv["q"]), int(kv["k"]), int(kv["bits"]) if "bits" in kv else None)
     k = copy.copy(KERNELS[base])
     k.kid = kid
     m = re.fullmatch(r"(\w+)(=|<|>)(-?\d+)", spec)
@@ -405,3 +419,195 @@ def get(kid):
         idx = [n for n, _ in k.argspec].index(var)
         k.cases_fn = lambda seed: [c for c in oldcases(seed) if (c[idx] < val if op == "<" else c[idx] > val)][:12]
     return k
+
+
+# ------------------------------------------------------------------ Eisel-Lemire exact rounding
+FLOAT_PARAMS = {
+    # mantissa bits p, exponent bias (so value = (2^p + mant) * 2^(exp - bias - p)), infinite power
+    "f64": dict(p=52, bias=1023, inf=2047),
+    "f32": dict(p=23, bias=127, inf=255),
+}
+
+
+def _ilog2_rational(num, den):
+    """floor(log2(num/den)) for positive integers."""
+    e = num.bit_length() - den.bit_length()
+    # 2^e <= num/den < 2^(e+1) ?
+    if e >= 0:
+        if num >= den << e:
+            if num >= den << (e + 1):
+                return e + 1
+            return e
+        return e - 1
+    if (num << -e) >= den:
+        if (num << -e) >= (den << 1):
+            return e + 1
+        return e
+    return e - 1
+
+
+class LemireExact(ScalarKernel):
+    """compute_float::<F>(q, w, false) is the error marker or the correctly rounded float of
+    w * 10^q, for one table row q and one leading-zero count k of w (all such w; optionally only
+    those with `bits` significant bits). The oracle is exact integer arithmetic (cross-multiplied
+    by 5^|q| and powers of two), independent of the algorithm."""
+
+    def __init__(self, f, q, k, bits=None):
+        self.f, self.q, self.k, self.bits = f, q, k, bits
+        kid = "lemire_exact_%s@q=%d,k=%d%s" % (f, q, k, (",bits=%d" % bits) if bits else "")
+        super().__init__(kid, "compute_float_" + f, [("q", "i64"), ("w", "u64"), ("lossy", "bool")],
+                         "lemire::compute_float::<%s>(q=%d, w, false) for every w with %d leading zeros%s: error marker or the "
+                         "nearest-even float of w*10^q (exact integer oracle)" % (f, q, k, (" and <= %d significant bits" % bits) if bits else ""),
+                         concrete={"q": q & ((1 << 64) - 1), "lossy": 0}, feas_ms=40, timeout_s=90,
+                         funcs=["lexical_parse_float::lemire::compute_float::<%s>" % f, "table_lemire::POWER_OF_FIVE_128 row %d" % q])
+        self.pre = self._pre
+        self.negpost = self._negpost
+        self.clz_hint = {"w": k}
+        self.cases_fn = self._cases
+
+    def _wrange(self):
+        return 1 << (63 - self.k), (1 << (64 - self.k)) - 1
+
+    def _pre(self, vs):
+        lo, hi = self._wrange()
+        w = vs["w"]
+        pre = [z3.UGE(w, z3.BitVecVal(lo, 64)), z3.ULE(w, z3.BitVecVal(hi, 64))]
+        if self.bits and 64 - self.k > self.bits:
+            low = 64 - self.k - self.bits
+            pre.append(z3.Extract(low - 1, 0, w) == 0)
+        return pre
+
+    def _cases(self, seed):
+        rnd = random.Random(seed * 31 + self.q * 7 + self.k)
+        lo, hi = self._wrange()
+        cs = {lo, hi, lo + 1, (lo + hi) // 2}
+        for _ in range(8):
+            cs.add(rnd.randrange(lo, hi + 1))
+        out = []
+        for w in sorted(cs):
+            if self.bits and 64 - self.k > self.bits:
+                low = 64 - self.k - self.bits
+                w = (w >> low) << low
+            out.append([self.q, w, 0])
+        return out
+
+    def _negpost(self, vs, ret):
+        """NOT( error marker  OR  (mant, exp) is the nearest-even float of w*10^q )"""
+        P = FLOAT_PARAMS[self.f]
+        p, bias, INF = P["p"], P["bias"], P["inf"]
+        q = self.q
+        w = vs["w"]
+        mant, exp = ret.fields[0].t, ret.fields[1].t
+        W = 64 + 64 + abs(q) * 3 + 1200 if abs(q) > 60 else 400 + abs(q) * 3
+        # generous fixed width for the integer comparisons
+        W = max(W, 2300 if self.f == "f64" else 700)
+        zw = z3.ZeroExt(W - 64, w)
+        zm = z3.ZeroExt(W - 64, mant)
+        five = 5 ** abs(q)
+        # V = w * 10^q = w * A / B with A, B positive integers
+        if q >= 0:
+            A, B = five << q, 1
+        else:
+            A, B = 1, five << (-q)
+        wlo, whi = self._wrange()
+        # candidate normal exponents for this (q, k)
+        e_lo = _ilog2_rational(wlo * A, B)
+        e_hi = _ilog2_rational(whi * A, B) + 1   # +1: rounding may carry to the next binade
+        emin = 1 - bias                           # exponent of the smallest normal
+        ok_cases = []
+
+        def C(x):
+            return z3.BitVecVal(x, W)
+
+        def within(mant_term_scaled, ulp_num, ulp_den, mant_even, lower_half):
+            """| V - R | <= ulp/2 with ties to even, where R = mant_term_scaled * (ulp_num/ulp_den).
+            All compared after multiplying by 2 * B * ulp_den:  2*V*.. = 2*w*A*ulp_den ; 2*R*.. = 2*R_int*ulp_num*B ;
+            ulp*.. = ulp_num*B."""
+            lhs = zw * C(2 * A * ulp_den)                  # 2V scaled
+            rhs = mant_term_scaled * C(2 * ulp_num * B)    # 2R scaled
+            u = C(ulp_num * B)                             # ulp scaled
+            # 2V - 2R in [-ulp, +ulp]
+            le_hi = z3.ULE(lhs, rhs + u)
+            ge_lo = z3.ULE(rhs, lhs + u)
+            tie_hi = lhs == rhs + u
+            tie_lo = rhs == lhs + u
+            conds = [le_hi, ge_lo, z3.Implies(tie_hi, mant_even), z3.Implies(tie_lo, mant_even)]
+            if lower_half is not None:
+                # at a binade boundary the gap below is half as wide: 2V - 2R >= -ulp/2  <=> 2*rhs <= 2*lhs + u
+                conds.append(z3.Implies(lower_half, z3.ULE(rhs * 2, lhs * 2 + u)))
+            return z3.And(conds)
+
+        mant_even = z3.Extract(0, 0, mant) == 0
+        hidden = C(1 << p)
+        for E in range(max(e_lo, emin), e_hi + 1):
+            eb = E + bias
+            if eb >= INF:
+                continue
+            # normal: R = (2^p + mant) * 2^(E - p)
+            s = E - p
+            un, ud = (1 << s, 1) if s >= 0 else (1, 1 << (-s))
+            lower_half = (z3.And(mant == 0, z3.BoolVal(eb > 1)))
+            ok_cases.append(z3.And(exp == z3.BitVecVal(eb, 32), z3.ULT(mant, z3.BitVecVal(1 << p, 64)),
+                                   within(hidden + zm, un, ud, mant_even, lower_half)))
+        if e_lo < emin:
+            # subnormal / zero: R = mant * 2^(emin - p), exp == 0 ; mant == 2^p would be the smallest normal
+            s = emin - p
+            un, ud = (1 << s, 1) if s >= 0 else (1, 1 << (-s))
+            ok_cases.append(z3.And(exp == 0, z3.ULT(mant, z3.BitVecVal(1 << p, 64)), within(zm, un, ud, mant_even, None)))
+            # rounding up out of the subnormal range gives the smallest normal: handled by the normal case E=emin (mant=0)
+        # overflow: V >= (2^(p+1) - 1/2) * 2^(emax - p)  => infinity
+        emax = INF - 1 - bias
+        # 2*V*B >= (2^(p+2) - 1) * 2^(emax - p) * B
+        thr = ((1 << (p + 2)) - 1) << (emax - p)
+        if e_hi >= emax:
+            ok_cases.append(z3.And(exp == z3.BitVecVal(INF, 32), mant == 0, z3.UGE(zw * C(2 * A), C(thr * B))))
+            # and finite results must be below the threshold
+            below = z3.ULT(zw * C(2 * A), C(thr * B))
+            ok_cases = [z3.And(c, below) if i < len(ok_cases) - 1 else c for i, c in enumerate(ok_cases)]
+        is_error = exp < 0
+        return z3.Not(z3.Or([is_error] + ok_cases))
+
+    def violates(self, model, out):
+        # replay: recompute the correctly rounded value with Python big integers
+        from fractions import Fraction
+        w = model.get("w", 0)
+        try:
+            m, e = [int(x) for x in out.split()]
+        except Exception:
+            return True
+        if e < 0:
+            return False
+        P = FLOAT_PARAMS[self.f]
+        want = _round_nearest_even(Fraction(w) * Fraction(10) ** self.q, P)
+        return (m, e) != want
+
+
+def _round_nearest_even(v, P):
+    from fractions import Fraction
+    p, bias, INF = P["p"], P["bias"], P["inf"]
+    if v == 0:
+        return (0, 0)
+    E = _ilog2_rational(v.numerator, v.denominator)
+    emin = 1 - bias
+    if E < emin:
+        E = emin
+        sub = True
+    else:
+        sub = False
+    ulp = Fraction(2) ** (E - p)
+    qv = v / ulp
+    fl = qv.numerator // qv.denominator
+    rem = qv - fl
+    if rem > Fraction(1, 2) or (rem == Fraction(1, 2) and fl % 2 == 1):
+        fl += 1
+    if sub:
+        if fl >= (1 << p):
+            return (fl - (1 << p), 1)
+        return (fl, 0)
+    if fl >= (1 << (p + 1)):
+        fl >>= 1
+        E += 1
+    eb = E + bias
+    if eb >= INF:
+        return (0, INF)
+    return (fl - (1 << p), eb)
